@@ -360,7 +360,7 @@ impl VM {
                     let num_args = self.read_u8();
                     #[cfg(feature = "verif")]
                     crate::verif::probe_call(self.stack.len(), num_args as usize);
-                    let base_pointer = self.stack.len() as u16 - 1 - num_args as u16;
+                    let base_pointer = self.stack.len() - 1 - num_args as usize;
                     let obj = self.pop();
                     if obj.tag() != Type::Function {
                         return Err(Error::TypeError(format!(
@@ -376,6 +376,16 @@ impl VM {
                             "functie kreeg {num_args} argumenten, maar verwacht er hooguit {num_locals}"
                         )));
                     }
+
+                    // Slots are addressed using 16-bit indices, so the new frame has to fit below that limit
+                    if base_pointer + num_locals as usize > u16::MAX as usize
+                        || self.frames.len() > u16::MAX as usize
+                    {
+                        return Err(Error::TypeError(
+                            "de stapel is vol (te diepe recursie?)".to_string(),
+                        ));
+                    }
+                    let base_pointer = base_pointer as u16;
 
                     // Make room on the stack for any local variables defined inside this function
                     for _ in 0..num_locals - num_args as u32 {
